@@ -9,7 +9,14 @@ open MitmVerif.C35.Api (AOp ARet K1 KV POp)
 
 /-
   One case per line:
-    seq <nfields> (n v)* (op)*      run `C35.run` on the store [fields]; reply: per step `<ret> S <store>` joined by " ; "
+    seq <nfields> (n v)* [kw …] (call)*   run `Api.run` (the str/bytes API layer over `C35.step`; `Api.construct` first when
+                                    keyword arguments are given) on the store [fields]; reply: per call `<ret> S <store>` joined by " ; ".
+                                    (`api_run_refines_total` relates `Api.run` to `Spec.run`, `run_refines` relates `C35.run` to it.)
+    view  <n> (uK uV)* (call)*      `Gen.View.runOps id (Gen.first []) idLens`     (MultiDict / MultiDictView / request.query)
+    viewc <n> (uK uV)* (call)*      `C35.cookieRun` = `Gen.View.runOps … cookieLens` plus the Cookie header column
+                                    (`Props.C35.cookieRun_is_view_run`)            (request.cookies)
+    ctor  <n> (arg arg)* [kw …]     `Api.constructFull`
+    nat / natr <hex>, enc u<cps>    `native`, `nativeRange`, `alwaysBytes`
     rt  <nfields> (n v)*            `bytes <hex> lines <n> <hex>* res <readHeaders result>`
     rd  <nlines> <hex>*             `<readHeaders result>`
 -/
